@@ -161,6 +161,26 @@ def run_variants(ctx, fam, spec, inputs, kw):
     procs = [ARec("y", ctx.rng, 3)]
     s = rt.Sched(default="rand", rng=ctx.rng)
     outs.append(("async-yield", core.execute(async_spec, inputs, "async", sched=s, processors=procs, **kw)))
+    # an iteration budget that is exactly enough (and one that is one step short): the budget counts the same steps
+    # under both runners, so status, values and error class agree
+    if "max_iterations" not in kw and "fail" not in kw:
+        from hgmon import monitors
+
+        piv = outs[0][1]
+        top = _top_run(piv.rec)
+        S = monitors.steps_per_run(piv.rec).get(top)
+        if S and piv.status == "completed":
+            for cap in sorted({S, max(1, S - 1), S + 1}):
+                a = core.execute(sync_spec, inputs, "sync", max_iterations=cap, error_handling="continue", **kw)
+                b = core.execute(async_spec, inputs, "async", sched=rt.Sched(default="rand", rng=ctx.rng), max_iterations=cap, error_handling="continue", **kw)
+                ctx.obs["exact_budget_pairs"] += 1
+                ctx.obs["executions_compared"] += 1
+                if a.deadlock or b.deadlock or a.inconclusive or b.inconclusive:
+                    continue
+                ka = (a.status, type(a.error).__name__ if a.error is not None else None)
+                kb = (b.status, type(b.error).__name__ if b.error is not None else None)
+                if ka != kb or (a.status == "completed" and a.values != b.values):
+                    ctx.violation("C02:status", f"max_iterations={cap} (the sync run needs {S} steps): sync {ka} {core.short(a.values, 200)}; async {kb} {core.short(b.values, 200)}", {"family": fam["family"], "spec": spec, "inputs": inputs, "fail": None, "variant": f"max_iterations={cap}"})
     # node order
     if fam.get("unique_outputs", True):
         for j in range(4 if fam["family"] == "waitdag" else 3 if fam["family"] in ("gated", "loop") else 2):
